@@ -60,14 +60,16 @@ def host_check(R, module, res, calls, name):
 def imported_variant(R, obs, name, module, calls, family):
     """the same program with its callees in a separately compiled library that the callers import: binding, isolation and
     the chosen overload must not depend on where the callee was compiled"""
-    sp = diff.split_for_import(module)
-    if sp is None:
-        R.count("not_splittable")
-        return
-    res = diff.check_program(R, obs, name + "/imported", module, calls, None, family, extra_events=FRAME_EVENTS, split=sp)
-    R.count("imported_variants")
-    if res["runnable"] and res["bad"] == 0:
-        R.nontriv("imported", res["source"])
+    for part in ("all", "even", "odd"):
+        sp = diff.split_for_import(module, part=part)
+        if sp is None:
+            R.count("not_splittable:" + part)
+            continue
+        res = diff.check_program(R, obs, name + "/imported-" + part, module, calls, None, family + ("" if part == "all" else ":spread"),
+                                 extra_events=FRAME_EVENTS, split=sp)
+        R.count("imported_variants:" + part)
+        if res["runnable"] and res["bad"] == 0:
+            R.nontriv("imported", part, res["source"])
 
 
 def run_shard(tier, seed, shard, n, R):
